@@ -116,6 +116,10 @@ type rlocker RWMutex
 func (r *rlocker) Lock()   { (*RWMutex)(r).RLock() }
 func (r *rlocker) Unlock() { (*RWMutex)(r).RUnlock() }
 
+// WaitGroupFirstAdd is the race monitor's name for the ordering sync.WaitGroup demands between an Add that takes the
+// counter from zero and a Wait.
+const WaitGroupFirstAdd = "sync.WaitGroup first Add / Wait"
+
 type WaitGroup struct {
 	real sync.WaitGroup
 	n    int
@@ -129,6 +133,11 @@ func (w *WaitGroup) Add(d int) {
 		return
 	}
 	vsched.Yield("wg.add", w, vsched.Always)
+	if d > 0 && w.n == 0 {
+		// sync.WaitGroup: "calls with a positive delta that occur when the counter is zero must happen before a Wait" -
+		// Go's race detector reads wg.sema here and writes it in a Wait that finds the counter above zero
+		vsched.AccessNoYield(w, WaitGroupFirstAdd, false, "(*sync.WaitGroup).Add from zero")
+	}
 	w.n += d
 	if w.n < 0 {
 		panic("sync: negative WaitGroup counter")
@@ -144,6 +153,9 @@ func (w *WaitGroup) Wait() {
 	if !vsched.Active() {
 		w.real.Wait()
 		return
+	}
+	if w.n > 0 {
+		vsched.AccessNoYield(w, WaitGroupFirstAdd, true, "(*sync.WaitGroup).Wait with the counter above zero")
 	}
 	vsched.Yield("wg.wait", w, func() bool { return w.n == 0 })
 	vsched.Acquire(w)
